@@ -114,19 +114,19 @@ _REFDIR = None
 
 
 def _refdir():
+    """Read-only copies of the extra files for the plain-CPython reference (one directory, rewritten atomically;
+    forked workers leave through os._exit, so nothing may depend on atexit clean-up)."""
     global _REFDIR
     if _REFDIR is None:
         import os
-        import tempfile
-        base = os.path.join(os.path.dirname(os.path.dirname(os.path.abspath(__file__))), '.work')
+        base = os.path.join(os.path.dirname(os.path.dirname(os.path.abspath(__file__))), '.work', 'c06ref')
         os.makedirs(base, exist_ok=True)
-        _REFDIR = tempfile.mkdtemp(prefix='c06ref_', dir=base)
         for name, text in EXTRA_FILES.items():
-            with open(os.path.join(_REFDIR, name), 'w') as f:
+            tmp = os.path.join(base, '.%s.%d' % (name, os.getpid()))
+            with open(tmp, 'w') as f:
                 f.write(text)
-        import atexit
-        import shutil
-        atexit.register(shutil.rmtree, _REFDIR, True)
+            os.replace(tmp, os.path.join(base, name))
+        _REFDIR = base
     return _REFDIR
 
 
